@@ -134,7 +134,8 @@ impl Block for AuEncode {
         }
         let n = std::cmp::min(i.len(), o.len() / ss);
         if n == 0 {
-            return Ok(BlockRet::WaitForStream(&self.dst, 1));
+            // Room for a whole sample is needed, not just for a byte.
+            return Ok(BlockRet::WaitForStream(&self.dst, ss));
         }
 
         for j in 0..n {
